@@ -38,6 +38,14 @@ struct KllFam {
   static const bool self_merge_ok = true;
   // KLL keeps no empty-level pattern that is a function of (k, n); count estimating sources
   static bool convert_gap(uint32_t k, uint64_t n) { return n > k; }
+  static uint32_t large_k(bool mx) { return mx ? 65535 : 40000; }
+  template<typename K> static int level0_unsorted(const SK<K>& sk) {
+    const auto s = sk.to_string(false, false);
+    const std::string text(s.begin(), s.end());
+    if (text.find("Sorted         : false") != std::string::npos) return 1;
+    if (text.find("Sorted         : true") != std::string::npos) return 0;
+    return -1;
+  }
   static uint64_t exact_cap(uint32_t k) { return k; }
 
   // stated space bound: get_max_serialized_size_bytes(k, n) "is an overestimate to make sure actual sketches
